@@ -68,7 +68,7 @@ var autoVariants = []autoVariant{
 
 var naming = schema.NamingStrategy{}
 
-var dataKinds = []kind{kInt, kString, kBool, kFloat, kPString, kInt, kString, kPInt, kNullStr, kJSON, kUnixtime}
+var dataKinds = []kind{kInt, kString, kBool, kFloat, kPString, kInt, kString, kPInt, kNullStr, kJSON, kUnixtime, kMoney}
 
 func genModel(rt *rapid.T) *model {
 	m := &model{NK: 1, Fields: []field{{Name: "ID", Col: "id", Kind: kInt, PK: true}}}
@@ -341,6 +341,11 @@ func litVal(f field, n int64) gval {
 		return gval{Cell: fmt.Sprintf(`{"A":"j%d","B":%d}`, n, n)}
 	case kUnixtime:
 		return gval{Cell: time.Unix(1_900_000_000+n, 0).UTC()}
+	case kMoney:
+		if n <= 3 {
+			return gval{Cell: "0 EUR"} // not the Go zero value, although its IsZero() method says true
+		}
+		return gval{Cell: fmt.Sprintf("%d EUR", n)}
 	case kUnixSec:
 		return gval{Cell: 1_900_000_000 + n}
 	case kUnixMilli:
@@ -631,7 +636,8 @@ func genOp(rt *rapid.T, m *model) (*op, string) {
 func genHistory(rt *rapid.T, m *model, o *op) {
 	h := &o.Hist
 	h.Handle = rapid.SampledFrom([]string{"", "", "", "", "transaction", "begin-commit"}).Draw(rt, "handle")
-	h.Decoy = rapid.IntRange(0, 3).Draw(rt, "decoy") == 0
+	h.SharedSel = (o.Select != nil || o.Omit != nil) && rapid.IntRange(0, 2).Draw(rt, "sharedsel") == 0
+	h.Decoy = !h.SharedSel && rapid.IntRange(0, 3).Draw(rt, "decoy") == 0
 	h.Context = rapid.IntRange(0, 5).Draw(rt, "context") == 0
 	h.Scopes = o.Cond != nil && rapid.IntRange(0, 3).Draw(rt, "scopes") == 0
 	h.SelectSlice = o.Select != nil && rapid.IntRange(0, 2).Draw(rt, "selectslice") == 0
@@ -956,6 +962,8 @@ func goValue(m *model, fi int, g gval) interface{} {
 		return v
 	case kUnixtime:
 		return g.Cell.(time.Time).Unix()
+	case kMoney:
+		return moneyOf(g.Cell)
 	}
 	return g.Cell
 }
@@ -1073,6 +1081,45 @@ func run(d *testdb.DB, m *model, o *op) error {
 
 func exec(db *gorm.DB, m *model, o *op) error {
 	tx := db.Table(tableName)
+	applySel := func(tx *gorm.DB) *gorm.DB {
+		if o.Select != nil {
+			if o.Hist.SelectSlice {
+				tx = tx.Select(append([]string(nil), o.Select...))
+			} else {
+				rest := make([]interface{}, len(o.Select)-1)
+				for i, s := range o.Select[1:] {
+					rest[i] = s
+				}
+				tx = tx.Select(o.Select[0], rest...)
+			}
+		}
+		if o.Omit != nil {
+			if o.Hist.OmitSep != "" {
+				tx = tx.Omit(strings.Join(o.Omit, o.Hist.OmitSep))
+			} else {
+				tx = tx.Omit(o.Omit...)
+			}
+		}
+		return tx
+	}
+	if o.Hist.SharedSel {
+		// the reusable-handle pattern: h := db.Select(..).Omit(..).Session(&gorm.Session{}); a write for another
+		// model type - same Go field names, every column renamed - evaluates the lists first (its outcome does
+		// not matter, it matches no row / fails on the unknown columns)
+		tx = applySel(tx).Session(&gorm.Session{})
+		w := &model{NK: m.NK, EmbPtr: m.EmbPtr, Fields: append([]field(nil), m.Fields...)}
+		for i := range w.Fields {
+			if known, _, _ := w.Fields[i].perms(); known && !w.Fields[i].PK {
+				w.Fields[i].ColTag = true
+				w.Fields[i].Col = "zz_" + strings.ToLower(w.Fields[i].Name)
+				if w.Fields[i].Emb {
+					w.Fields[i].Col = embPrefix + w.Fields[i].Col
+				}
+			}
+		}
+		w.build()
+		_ = tx.Model(w.newValue(0, w.revValue(0), nil).Interface()).Where("1 = 0").Updates(map[string]interface{}{m.Fields[m.NK].Name: nil}).Error
+	}
 	if o.Hist.Decoy {
 		// other chains are derived from the same parent and finished first: nothing of them may leak
 		parent := tx.Session(&gorm.Session{})
@@ -1107,23 +1154,8 @@ func exec(db *gorm.DB, m *model, o *op) error {
 			tx = apply(tx)
 		}
 	}
-	if o.Select != nil {
-		if o.Hist.SelectSlice {
-			tx = tx.Select(append([]string(nil), o.Select...))
-		} else {
-			rest := make([]interface{}, len(o.Select)-1)
-			for i, s := range o.Select[1:] {
-				rest[i] = s
-			}
-			tx = tx.Select(o.Select[0], rest...)
-		}
-	}
-	if o.Omit != nil {
-		if o.Hist.OmitSep != "" {
-			tx = tx.Omit(strings.Join(o.Omit, o.Hist.OmitSep))
-		} else {
-			tx = tx.Omit(o.Omit...)
-		}
+	if !o.Hist.SharedSel {
+		tx = applySel(tx)
 	}
 	target := []clause.Column{{Name: "id"}}
 	if m.NK == 2 {
@@ -1426,7 +1458,7 @@ func analyse(m *model, o *op, selForm string) caseInfo {
 		for _, x := range []struct {
 			on   bool
 			name string
-		}{{h.Handle != "", "history:" + h.Handle}, {h.Decoy, "history:session-parent+decoys"}, {h.Context, "history:with-context"},
+		}{{h.Handle != "", "history:" + h.Handle}, {h.SharedSel, "history:shared-select-handle"}, {h.Decoy, "history:session-parent+decoys"}, {h.Context, "history:with-context"},
 			{h.Scopes, "history:cond-via-scopes"}, {h.SkipHooks, "history:Session{SkipHooks}"}, {h.Returning, "clause:Returning"},
 			{h.SelectSlice, "select-arg:[]string"}, {h.OmitSep != "", "omit-arg:comma-string"}, {strings.Contains(h.OmitSep, " "), "omit-arg:comma-string-with-blanks"}, {o.Form != "", "form:" + o.Form}, {o.KeysPtr, "form:model-[]*T"},
 			{o.SetCol != nil, "callback:SetColumn"}, {m.SkipDefaultTx, "config:SkipDefaultTransaction"}, {m.PrepareStmt, "config:PrepareStmt"},
